@@ -459,6 +459,56 @@ func c17ManyNames(run *ev.Run, n int) (map[string]any, error) {
 	return map[string]any{"names": n, "started": started, "started_again_after_timeout": restarted}, nil
 }
 
+// c17Unpreparable: a prepare that cannot succeed (threshold 0: the instance cannot make its own contribution) is sent by a
+// peer. Whatever it is answered, it is answered, and so are an abort for that name and a prepare for another name
+// afterwards (judged: answers, not their content). The watchdog is minutes long; a request takes milliseconds.
+func c17Unpreparable(run *ev.Run) (map[string]any, error) {
+	extra := map[uint64]string{}
+	for _, id := range []uint64{1, 3, 4} {
+		extra[id] = fmt.Sprintf("%s:%d", rig.PeerName(id), 8000+id)
+	}
+	c, err := rig.NewCluster(rig.ClusterOpts{IDs: []uint64{c17Self}, ExtraPeers: extra})
+	if err != nil {
+		return nil, err
+	}
+	node := c.Nodes[c17Self]
+	parts := make([]*core.Endpoint, len(c17Participants))
+	for i, id := range c17Participants {
+		parts[i] = &core.Endpoint{ID: id, Name: rig.PeerName(id), Port: uint32(8000 + id)}
+	}
+	steps := []struct {
+		what string
+		f    func() error
+	}{
+		{"prepare with threshold 0", func() error { return node.RecvPrepare(rig.PeerName(1), rig.DistWallet+"/unpreparable", 0, parts) }},
+		{"abort for that name", func() error { return node.RecvAbort(rig.PeerName(1), rig.DistWallet+"/unpreparable") }},
+		{"prepare for another name", func() error { return node.RecvPrepare(rig.PeerName(1), rig.DistWallet+"/after-unpreparable", 2, parts) }},
+	}
+	answered := 0
+	for _, st := range steps {
+		done := make(chan string, 1)
+		go func() {
+			_, crash := deliver(st.f)
+			done <- crash
+		}()
+		select {
+		case crash := <-done:
+			if crash != "" {
+				run.Violate("unpreparable:crash", fmt.Sprintf("a %s from a peer makes the instance panic: %s", st.what, crash), map[string]any{"check": "C17", "unpreparable": true})
+				return map[string]any{"answered": answered}, nil
+			}
+			answered++
+		case <-time.After(3 * time.Minute):
+			run.Violate("unpreparable:no-answer", fmt.Sprintf("after a prepare with threshold 0 from a peer, the %s is never answered (waited three minutes; a request takes milliseconds): the instance no longer follows any lifecycle", st.what),
+				map[string]any{"check": "C17", "unpreparable": true})
+			// The instance is stuck: it is left behind (closing it would wait for the same lock).
+			return map[string]any{"answered": answered}, nil
+		}
+	}
+	c.Close()
+	return map[string]any{"answered": answered}, nil
+}
+
 // C17 explores the session lifecycle of one instance.
 func C17(tier string) int {
 	run := ev.NewRun("C17", tier, "model_checking")
@@ -466,7 +516,7 @@ func C17(tier string) int {
 	budget := 150 * time.Second
 	if tier == "thorough" {
 		depth = 12
-		budget = 40 * time.Minute
+		budget = 15 * time.Minute
 	}
 	var ops []LOp
 	for acct := 0; acct < 2; acct++ {
@@ -532,6 +582,11 @@ func C17(tier string) int {
 		run.HarnessErr = err
 		return run.Finish()
 	}
+	unprep, err := c17Unpreparable(run)
+	if err != nil {
+		run.HarnessErr = err
+		return run.Finish()
+	}
 	conc, err := c17Concurrent(run, time.Now().Add(budget))
 	if err != nil {
 		run.HarnessErr = err
@@ -545,6 +600,7 @@ func C17(tier string) int {
 		"concurrent_delivery":           conc,
 		"real_clock":                    realTime,
 		"many_account_names":            many,
+		"prepare_that_cannot_succeed":   unprep,
 		"states":                        r.States,
 		"transitions":                   r.Transitions,
 		"traces_validated_against_impl": r.Transitions,
